@@ -659,6 +659,10 @@ def rule_fpcast(ctx, tu):
             n += 1
             lit = strip(inner, casts=True).get("kind") == "FloatingLiteral"
             bases = {name_of(strip(subscript(y)[0], casts=True)) for y in walk(inner) if subscript(y) is not None}
+            if f.qual == "GenerateStochasticDistribution":
+                from .. import gsd
+                role_ = gsd.roles(f)          # the tables are identified by what they are computed from, not by name
+                bases = {role_.get(b_, b_) for b_ in bases}
             others = [y for y in walk(inner) if y.get("kind") in ("DeclRefExpr", "MemberExpr") and
                       (uname(y) or name_of(y)) not in bases and y.get("type", {}).get("qualType", "") in ("double", "float", "const double")]
             why = next((r_ for (fq, names), r_ in FPCAST_OK.items() if fq == f.qual and bases and bases <= names and not others), None)
